@@ -70,6 +70,14 @@ MUTS = {
     "M51_no_g_prefix": ("glyph.py", "    if not name[0].isalpha() or name.startswith(\"g_\"):\n        name = \"g_\" + name\n", "    pass\n", ["C10"]),
     "M51b_F9_reverted": ("parts.py", "        if self.reuse_tolerance == -1:\n            return  # reuse is disabled, nothing can be a donor\n", "", ["C10"]),
     "M51c_parts_json_drops_none_donor": ("parts.py", "            if donor != \"\":\n", "            if donor:\n", ["C10"]),
+    "M59_transform_not_reset_after_path": ("colr_to_svg.py", "    el.attrib[\"transform\"] = _svg_matrix(svg_transform)\n    # we must reset", "    el.attrib[\"transform\"] = _svg_matrix(svg_transform)\n    return transform\n    # we must reset", ["C13"]),
+    "M60_skew_sign": ("paint.py", "        return Affine2D.identity().skew(\n            -radians(self.xSkewAngle), radians(self.ySkewAngle)\n        )", "        return Affine2D.identity().skew(\n            radians(self.xSkewAngle), radians(self.ySkewAngle)\n        )", ["C13"]),
+    "M61_colrglyph_drops_transform": ("colr_to_svg.py", "            transform = _apply_transform(transform, font_to_vbox, el)\n", "            transform = Affine2D.identity()\n", ["C13"]),
+    "M62_radial_not_decomposed": ("colr_to_svg.py", "    if paint.format == PaintRadialGradient.format:\n        coord_transform, remaining_transform = _decompose_uniform_transform(\n            coord_transform\n        )", "    if False:\n        pass", ["C13"]),
+    "M63_palette_index_single_palette": ("colr_to_svg.py", "        palette_index=palette_index if len(ttfont[\"CPAL\"].palettes) > 1 else None,", "        palette_index=None,", ["C13"]),
+    "M63b_v0_alpha_lost": ("colr_to_svg.py", "        paint = PaintSolid(_color(ttfont, glyph_layer.colorID))", "        paint = PaintSolid(_color(ttfont, glyph_layer.colorID).opaque())", ["C13"]),
+    "M63c_group_alpha_lost": ("colr_to_svg.py", "                g.attrib[\"opacity\"] = ntos(color.alpha)\n", "                g.attrib[\"opacity\"] = ntos(1.0)\n", ["C13"]),
+    "M63d_layers_reversed": ("colr_to_svg.py", "        for child_paint in layerList[\n            ot_paint.FirstLayerIndex : ot_paint.FirstLayerIndex + ot_paint.NumLayers\n        ]:", "        for child_paint in reversed(layerList[\n            ot_paint.FirstLayerIndex : ot_paint.FirstLayerIndex + ot_paint.NumLayers\n        ]):", ["C13"]),
     "M68_unindexed_popleft": ("colors.py", "            result[i] = cpal_colors.pop()\n", "            result[i] = cpal_colors.popleft() if cpal_colors[0].palette_index is None else cpal_colors.pop()\n", ["C15"]),
     "M69_slots_len_only": ("colors.py", "    cpal_slots = max(len(all_colors), max(indexed_colors, default=-1) + 1)", "    cpal_slots = max(len(all_colors), len(indexed_colors))", ["C15"]),
     "M70_conflict_by_rgb_only": ("colors.py", "            if color.palette_index in indexed_colors:\n", "            if color.palette_index in indexed_colors and indexed_colors[color.palette_index][:3] != color[:3]:\n", ["C15"]),
